@@ -639,6 +639,9 @@ class SK(object):
                 return BUILTINS['reduce']
             if b.name == 'ext:functools' and e.attr == 'partial':
                 return BUILTINS['partial']
+            if b.name == 'ext:sys' and e.attr == 'float_info':
+                import sys as _sys
+                return _sys.float_info          # constants of the float format
             if b.name == 'ext:os' and e.attr == 'path':
                 return ModRef('ext:os.path')
             if b.name == 'ext:os.path' and e.attr in ('splitext', 'basename', 'dirname', 'join'):
@@ -668,6 +671,8 @@ class SK(object):
             raise Violation('SK2', 'attribute %s of %s read before it is set' % (e.attr, b._cls), e)
         if isinstance(b, SuperRef):
             fi = self.m.lookup(b.obj._cls, e.attr, 'methods', after=b.after)
+            if fi is None and e.attr in ('__init__', '__init_subclass__'):
+                return Py(lambda sk, node, *a, **k: None, 'object.' + e.attr)       # the class derives from object: nothing to initialise there
             if fi is None:
                 raise Unsupported('super().%s' % e.attr)
             if ('method', fi.key) in self.abstracted:
@@ -683,6 +688,8 @@ class SK(object):
             return Py(lambda sk, node, c, *a, **k: Bag(c[1]) if isinstance(c, tuple) and c and c[0] == 'class' else {}, '__new__')
         if isinstance(b, Py) and getattr(b, 'name', None) == 'dict' and e.attr == 'fromkeys':
             return Py(lambda sk, node, keys, val=None: dict.fromkeys(list(self.iterate(keys, node)) if not isinstance(keys, (list, tuple, dict, set, str)) else list(keys), val), 'dict.fromkeys')
+        if type(b).__name__ == 'float_info' and e.attr in ('epsilon', 'max', 'min', 'dig', 'mant_dig'):
+            return getattr(b, e.attr)
         if isinstance(b, dict) and e.attr == '__new__':
             return Py(lambda sk, node, *a, **k: {}, 'dict.__new__')
         if isinstance(b, dict) and e.attr in ('update', 'setdefault', 'copy', 'clear'):
@@ -815,7 +822,8 @@ class SK(object):
         except TypeError as ex:
             raise Violation('SK2', 'type error in arithmetic: %s' % ex, node)
 
-    OPS = {ast.Add: o.add, ast.Sub: o.sub, ast.Mult: o.mul, ast.Div: o.truediv, ast.FloorDiv: o.floordiv, ast.Mod: o.mod, ast.Pow: o.pow}
+    OPS = {ast.Add: o.add, ast.Sub: o.sub, ast.Mult: o.mul, ast.Div: o.truediv, ast.FloorDiv: o.floordiv, ast.Mod: o.mod, ast.Pow: o.pow,
+           ast.LShift: o.lshift, ast.RShift: o.rshift, ast.BitAnd: o.and_, ast.BitOr: o.or_, ast.BitXor: o.xor}
 
     def e_BinOp(self, e, env):
         # [0.0] * n  /  n * [0.0]: the replicated float literal is a placeholder fill, like the element of an initialiser comprehension
